@@ -35,7 +35,7 @@ def run(chk):
     chk.level = "proof"
     chk.technique = ("exact-tree domain: the converting constructor and converting assignment of every class, for each ordered pair "
                      "of numeric types, are evaluated to the tree of every stored slot and compared with a single cast of the same slot "
-                     "of the source (directions: optionally followed by the normalisation formula)")
+                     "of the source (directions: followed by the normalisation formula)")
     chk.rule("R1", "converting construction: slot i of the result is static_cast<T2>(slot i of the source) - one cast straight from T1, no arithmetic, no detour")
     chk.rule("R2", "converting assignment: the same for the post-state, and *this is returned")
     chk.assumptions += ["widening then narrowing is the identity by IEEE-754 once each step is a plain cast (decided here)",
@@ -76,9 +76,13 @@ def run(chk):
                         plain = all(g[1] == c and g[0] == s[0] for g, c, s in zip(got, casts, srcv))
                         ok = plain
                         how = "one cast per slot"
-                        if not ok and is_dir:
+                        if is_dir:
+                            # the statement: "for directions the result is additionally re-normalised" (construction and assignment alike)
                             ok = normalised_ok([g[1] for g in got], casts)
                             how = "one cast per slot, then re-normalised"
+                            if not ok and plain:
+                                chk.violated(rule, inst, "the components are cast but the direction is not re-normalised in %s: its length is one only to the precision of %s" % (T2, T1), loc)
+                                continue
                         if ok and kind == "assign" and not (isinstance(res, ev.LV) and res.loc == this_lv.loc):
                             ok, how = False, "does not return *this"
                         if ok:
